@@ -288,6 +288,12 @@ impl Report {
 
     /// Write evidence + replay files, print verdict lines, return the exit code.
     pub fn finish(mut self) -> i32 {
+        // child mode (the same workload in another build profile): hand the raw report to the parent
+        if let Ok(path) = std::env::var("VERIF_DUMP_JSON") {
+            let code = if !self.violations.is_empty() { 1 } else if !self.inconclusive.is_empty() { 2 } else { 0 };
+            let _ = std::fs::write(&path, serde_json::to_string(&self.dump_json()).unwrap_or_default());
+            return code;
+        }
         let root = root();
         let known = load_known();
         let mut unlisted: Vec<(String, String, Value)> = vec![];
